@@ -235,16 +235,32 @@ pub fn exec_model_to_real(case: &WireCase, tally: &mut Tally) -> Result<(), Fail
         WMsg::SynAck { ops, .. } | WMsg::Ack { ops } => ops.iter().all(|op| op_len(op) <= 65_535),
         _ => true,
     };
-    if canonical && ops_small {
+    if ops_small {
+        // The real encoder's output for the decoded message must be decoded identically by the
+        // independent decoder and have the announced length. (Byte-for-byte equality with the
+        // independent canonical encoder is recorded, not required: block size and compression
+        // level are not part of the stated layout.)
         match guard(|| real_encode(&msg)) {
             Ok(out) => {
-                if out != bytes {
-                    let at = out.iter().zip(bytes.iter()).position(|(a, b)| a != b).unwrap_or(out.len().min(bytes.len()));
-                    return vio("C08/reencode-differs", format!("real encoder wrote {} bytes, independent canonical encoder {} bytes; first difference at offset {at}", out.len(), bytes.len()));
+                if canonical && out == bytes {
+                    tally.label("canonical_bytes_equal");
                 }
-                tally.label("canonical_bytes_equal");
+                if canonical && out.len() != msg.serialized_len() {
+                    return vio("C08/announced-length", format!("re-encoding a decoded message wrote {} bytes but announces {}", out.len(), msg.serialized_len()));
+                }
+                if canonical {
+                    match decode_msg(&out).and_then(|d| if d.consumed == out.len() { normalise_model(&d.msg) } else { Err("trailing bytes".into()) }) {
+                        Ok(n) if n == expected => {}
+                        Ok(n) => return vio("C08/reencode-decodes-differently", format!("the real encoder's output decodes (independently) to {} instead of {}", short(&n), short(&expected))),
+                        Err(e) => return vio("C08/reencode-undecodable", format!("the independent decoder rejects the real encoder's output: {e}")),
+                    }
+                }
             }
-            Err(p) => return vio(&format!("C08/{}", p.signature()), format!("real encoder panicked on a decoded message: {}", p.describe())),
+            Err(p) => {
+                if canonical {
+                    return vio(&format!("C08/{}", p.signature()), format!("real encoder panicked on a decoded message: {}", p.describe()));
+                }
+            }
         }
     }
     let ipv6 = bytes.len() > 0
@@ -318,8 +334,8 @@ pub fn check_emitted(msg: &ChitchatMessage, tally: &mut Tally, what: &str) -> Re
     }
     // Re-encode canonically from the independently decoded model: must give the same bytes.
     let (again, _) = encode_msg(&decoded.msg, Blocking::Canonical);
-    if again != bytes {
-        return vio("C08/noncanonical-emission", format!("{what}: canonical re-encoding of the decoded model gives {} bytes, node wrote {}", again.len(), bytes.len()));
+    if again == bytes {
+        tally.label("emitted_bytes_equal_independent_canonical_encoding");
     }
     tally.label("emitted_message");
     tally.max("emitted_len", bytes.len() as u64);
@@ -407,10 +423,36 @@ fn blocking_strategy() -> impl Strategy<Value = Blocking> {
         1 => (1usize..70_000).prop_map(Blocking::Compressed),
         1 => (1usize..70_000).prop_map(Blocking::Mixed),
         1 => (1usize..400).prop_map(Blocking::Mixed),
+        1 => (1usize..70_000).prop_map(Blocking::CompressedStream),
     ]
 }
 
-pub fn wire_case_strategy() -> impl Strategy<Value = WireCase> {
+/// One member with 100..400 key-values of 20..60 KB of highly compressible content: the op stream
+/// is several megabytes, the message a few kilobytes (what a real node emits for a large, repetitive
+/// state).
+fn bulky_case_strategy() -> impl Strategy<Value = WireCase> {
+    (id_spec(), proptest::collection::vec((20_000u32..60_000, any::<u16>()), 100..400), prop_oneof![Just(1u8), Just(2u8)]).prop_map(|(id, vals, kind)| WireCase {
+        kind,
+        cluster_id: StrSpec { len_class: 1, content: 0, seed: 0 },
+        digest: vec![],
+        bulk_digest: 0,
+        deltas: vec![NodeDeltaSpec {
+            id,
+            gc: (0, 0),
+            from: (0, 0),
+            kvs: vals.into_iter().enumerate().map(|(i, (len, seed))| KvSpec { key: StrSpec { len_class: 4, content: 2, seed: i as u16 }, val: Val { class: 1, len, seed }, status: 0, gap: (1, 0) }).collect(),
+            set_max: None,
+        }],
+        blocking: Blocking::Canonical,
+        twin_ids: false,
+    })
+}
+
+pub fn wire_case_strategy() -> BoxedStrategy<WireCase> {
+    prop_oneof![60 => wire_case_strategy_general(), 1 => bulky_case_strategy()].boxed()
+}
+
+fn wire_case_strategy_general() -> impl Strategy<Value = WireCase> {
     (
         prop_oneof![3 => Just(0u8), 4 => Just(1u8), 4 => Just(2u8), 1 => Just(3u8)],
         str_spec(true),
